@@ -202,6 +202,8 @@ class Grid(object):
         pixeltype = re.sub("nsignedint$|^signed|nt|loat", "",
                            config["pixeltype"])
         nbits = config["nbits"]//8
+        # .. the grid holds native data, the byte order
+        # is a property of the file used when loading it
         config["dtype"] = np.dtype(byteorder +
                                    pixeltype + str(nbits)).type
 
@@ -236,7 +238,7 @@ class Grid(object):
         # Reads data if bil file is there
         if stream_data is not None:
             stream_data.seek(0)
-            grid.load(stream_data)
+            grid.load(stream_data, byteorder)
 
         # Adds parent meta data
         if len(parent_config) > 0:
@@ -501,7 +503,7 @@ class Grid(object):
 
         return identical
 
-    def load(self, stream_data):
+    def load(self, stream_data, byteorder="="):
         """ Load data from file
 
         Parameters
@@ -509,8 +511,12 @@ class Grid(object):
         stream_data : io.ByteIO or str
             Stream to binary data (only BIL file format at the moment) or
             File path.
+        byteorder : str
+            Byte order of the data in the file: "<" (little endian,
+            BYTEORDER I), ">" (big endian, BYTEORDER M) or "=" (native).
         """
-        data = np.fromfile(stream_data, self.dtype)
+        dtype = np.dtype(self.dtype).newbyteorder(byteorder)
+        data = np.fromfile(stream_data, dtype)
 
         nval = self.nrows * self.ncols
         if len(data) != nval:
